@@ -12,6 +12,7 @@ import (
 	"errors"
 	"fmt"
 	"io"
+	"strings"
 	"testing"
 	"testing/synctest"
 	"time"
@@ -54,6 +55,18 @@ func runStdio(s StdioScript) (res vt.Result) {
 }
 
 func runStdioInBubble(s StdioScript) (res vt.Result) {
+	return runStdioCore(s, func() bool { synctest.Wait(); return true }, func() { time.Sleep(time.Minute) })
+}
+
+// runStdioCore runs the arrangement; settle waits until everything that can happen has happened (false: it
+// could not be established), pause lets (virtual) time pass where the bubble variant allows for timers.
+func runStdioCore(s StdioScript, settle func() bool, pause func()) (res vt.Result) {
+	quiet := true
+	rest := func() {
+		if !settle() {
+			quiet = false
+		}
+	}
 	res.Desc = fmt.Sprintf("stdio|%s|%v|%v|%d|%d|%v|%s", s.Side, s.ReadCloseErr, s.WriteCloseErr, s.Answered, s.Pending, s.Stall, s.End)
 	res.NonTrivial = s.Stall || s.Pending > 0
 	a, b := memio.NewPipe() // a: the SDK session's end, b: the raw peer's
@@ -83,7 +96,7 @@ func runStdioInBubble(s StdioScript) (res vt.Result) {
 			cs, e = client.Connect(bg, tr, &mcp.ClientSessionOptions{ProtocolVersion: "2025-06-18"})
 			cerr <- e
 		}()
-		synctest.Wait()
+		rest()
 		rcv := peer.Received()
 		if len(rcv) != 1 {
 			res.Failf("harness: expected the client's initialize, got %s", rcv)
@@ -94,7 +107,7 @@ func runStdioInBubble(s StdioScript) (res vt.Result) {
 		}
 		json.Unmarshal(rcv[0], &init)
 		peer.Send(fmt.Sprintf(`{"jsonrpc":"2.0","id":%s,"result":{"protocolVersion":"2025-06-18","capabilities":{"tools":{}},"serverInfo":{"name":"raw","version":"0"}}}`, init.ID))
-		synctest.Wait()
+		rest()
 		select {
 		case e := <-cerr:
 			if e != nil {
@@ -115,9 +128,9 @@ func runStdioInBubble(s StdioScript) (res vt.Result) {
 			return
 		}
 		peer.Send(`{"jsonrpc":"2.0","id":"init","method":"initialize","params":{"protocolVersion":"2025-06-18","capabilities":{},"clientInfo":{"name":"raw","version":"0"}}}`)
-		synctest.Wait()
+		rest()
 		peer.Send(`{"jsonrpc":"2.0","method":"notifications/initialized","params":{}}`)
-		synctest.Wait()
+		rest()
 		if len(peer.Received()) != 1 {
 			res.Failf("harness: handshake not answered: %s", peer.Received())
 			return
@@ -174,12 +187,12 @@ func runStdioInBubble(s StdioScript) (res vt.Result) {
 	}
 	for i := 0; i < s.Answered; i++ {
 		r := start(fmt.Sprintf("answered call %d", i))
-		synctest.Wait()
+		rest()
 		if !answer() {
 			res.Failf("harness: the peer did not receive call %d", i)
 			return
 		}
-		synctest.Wait()
+		rest()
 		if !returned(r) || r.err != nil {
 			res.Failf("%s: answered by the peer, returned=%v err=%v", r.what, returned(r), r.err)
 			return
@@ -187,12 +200,12 @@ func runStdioInBubble(s StdioScript) (res vt.Result) {
 	}
 	for i := 0; i < s.Pending; i++ {
 		start(fmt.Sprintf("call %d the peer never answers", i))
-		synctest.Wait()
+		rest()
 	}
 	if s.Stall {
 		a.StallWrites() // the peer no longer drains its input: what the session writes next does not get through
 		start("call written after the peer stopped draining")
-		synctest.Wait()
+		rest()
 		res.Class("call_blocked_inside_the_transport_write")
 	}
 	for _, r := range recs[s.Answered:] {
@@ -206,17 +219,24 @@ func runStdioInBubble(s StdioScript) (res vt.Result) {
 	case "gone":
 		b.Close()
 	}
-	synctest.Wait()
-	time.Sleep(time.Minute)
-	synctest.Wait()
+	rest()
+	pause()
+	rest()
 	res.Class("end_" + s.End)
+	if !quiet {
+		// (real-time variant on a busy machine: the process never came to rest within the budget; nothing is judged)
+		res.Class("quiescence_not_established")
+		b.Close()
+		go closeS()
+		return res
+	}
 	select {
 	case <-waitDone:
 	default:
 		res.Failf("Wait has not returned a minute after the link ended (%s)", s.End)
 		b.Close()
 		go closeS()
-		synctest.Wait()
+		rest()
 		return
 	}
 	for _, r := range recs[s.Answered:] {
@@ -229,7 +249,7 @@ func runStdioInBubble(s StdioScript) (res vt.Result) {
 	}
 	// a call started now fails at once, with an error that says the connection is closed
 	late := start("call made after Wait returned")
-	synctest.Wait()
+	rest()
 	if !returned(late) {
 		res.Failf("a call started after Wait had returned did not return at once")
 	} else if !errors.Is(late.err, mcp.ErrConnectionClosed) {
@@ -238,9 +258,9 @@ func runStdioInBubble(s StdioScript) (res vt.Result) {
 	// release whatever is left so that the bubble can end
 	b.Close()
 	go closeS()
-	synctest.Wait()
-	time.Sleep(time.Minute)
-	synctest.Wait()
+	rest()
+	pause()
+	rest()
 	for _, r := range recs {
 		if returned(r) && r.n != 1 {
 			res.Failf("%s returned %d times", r.what, r.n)
@@ -249,6 +269,30 @@ func runStdioInBubble(s StdioScript) (res vt.Result) {
 	_ = io.EOF
 	return res
 }
+
+// runStdioRT: the same arrangement in real time, outside any bubble. This is the variant that can see a
+// deadlock through a plain mutex (e.g. the transport's Close taking the lock that the blocked Write holds):
+// the arrangement arms no timers, so once every goroutine of the process is blocked, and stays so, whatever
+// has not returned by then never will.
+func runStdioRT(s StdioScript) (res vt.Result) {
+	var lastDump string
+	res = runStdioCore(s, func() bool {
+		q, d := vt.Quiesce(30*time.Second, 3*time.Millisecond, 4)
+		lastDump = d
+		return q
+	}, func() {})
+	if len(res.Violations) > 0 {
+		if mw := vt.MutexWaiters(lastDump); len(mw) > 0 {
+			res.Failf("goroutines waiting for a mutex when the process had come to rest:\n%s", strings.Join(mw, "\n\n"))
+		}
+	}
+	res.Class("real_time")
+	return res
+}
+
+var stdioRTProp = vt.Register(&vt.Prop[StdioScript]{Property: "C01", Name: "stdio_rt", Gen: genStdio, Run: runStdioRT})
+
+func TestC01_StdioRT(t *testing.T) { theT = t; stdioRTProp.Check(t) }
 
 var stdioProp = vt.Register(&vt.Prop[StdioScript]{Property: "C01", Name: "stdio", Gen: genStdio, Run: runStdio})
 
